@@ -177,15 +177,8 @@ Proof.
   split; intros E; rewrite E in H; cbn in H; tauto.
 Qed.
 
-(* ------------------------------------------------------------------ with the pseudo rows of the table *)
-Lemma c03_factory_safe_lemma c bytes nc pm :
+(* ------------------------------------------------------------------ the pseudo rows of the table (old lookup) *)
+Lemma c03_factory_orig_safe_lemma c bytes nc pm :
   c03_wf c = true -> is_bytes bytes = true -> lenN bytes < 4294967296 -> c03_pseudo real_caps bytes = false ->
-  safe (c03_factory c real_caps bytes nc pm).
-Proof. intros Hw Hb Hl Hp. unfold c03_factory. rewrite Hp. apply c03_decode_safe_lemma; assumption. Qed.
-
-Lemma c03_factory_total_lemma c bytes nc pm :
-  c03_wf c = true -> c03_factory c real_caps bytes nc pm <> Fuel /\ c03_factory c real_caps bytes nc pm <> Diverge.
-Proof.
-  intros Hw. unfold c03_factory. destruct (c03_pseudo real_caps bytes); [split; discriminate|].
-  apply c03_decode_total_lemma. exact Hw.
-Qed.
+  safe (c03_factory_orig c real_caps bytes nc pm).
+Proof. intros Hw Hb Hl Hp. unfold c03_factory_orig. rewrite Hp. apply c03_decode_safe_lemma; assumption. Qed.
